@@ -522,7 +522,7 @@ class Tables:
                         self.errors.append(r)
                         yield r
                         continue
-                    arena = adt("arena::Arena", 0, (ref(("ctx",), ()), ("sym", "root")))
+                    arena = gcmodel.arena_value(self.prog)
                     mem = {("arena",): arena}
                     if selfk == "ref":
                         a0 = ref(("arena",), ())
